@@ -494,6 +494,9 @@ impl Space for FormatSpace {
         let mut out = String::new();
         let (mut calls, mut oks, mut errs) = (0u64, 0u64, 0u64);
         for e in &rep.eps {
+            if std::env::var("C05_VERBOSE").is_ok() {
+                eprintln!("   ep {:<50} ok={} err={} peak={} largest_request={}", e.ep, e.ok, e.err, e.peak, e.largest);
+            }
             calls += e.ok + e.err;
             oks += e.ok;
             errs += e.err;
